@@ -7,7 +7,52 @@ measured (start_operation calls per native library; the GHASH implementation bou
 so that a configuration switch the library silently ignores is reported as lost coverage, not as
 agreement.
 """
+import os
+import pickle
+import signal
+import traceback
+
 from ..common import Acc, short, asc
+
+
+def forked(fn, *args):
+    """Run fn(*args) in a forked child and return (result, 0), or (None, -signal) when the child was killed
+    by a signal (native crash), or (traceback text, 1) when the harness raised.  A segmentation fault in one
+    native variant must become a verdict about that variant, not a hung worker pool."""
+    r, w = os.pipe()
+    pid = os.fork()
+    if pid == 0:
+        code = 0
+        try:
+            os.close(r)
+            try:
+                payload = pickle.dumps(("ok", fn(*args)))
+            except BaseException:  # noqa
+                payload = pickle.dumps(("err", traceback.format_exc()))
+            with os.fdopen(w, "wb") as fh:
+                fh.write(payload)
+        except BaseException:  # noqa
+            code = 98
+        os._exit(code)
+    os.close(w)
+    with os.fdopen(r, "rb") as fh:
+        data = fh.read()
+    _, status = os.waitpid(pid, 0)
+    if os.WIFSIGNALED(status):
+        return None, -os.WTERMSIG(status)
+    try:
+        kind, val = pickle.loads(data)
+    except Exception:  # noqa
+        return "child exited with status %d and no result" % status, 1
+    return (val, 0) if kind == "ok" else (val, 1)
+
+
+def _signame(st):
+    try:
+        return signal.Signals(-st).name
+    except Exception:  # noqa
+        return "signal%d" % -st
+
 
 IV16 = bytes(range(0xA0, 0xB0))
 
@@ -219,7 +264,7 @@ def aes_case(mode, key, data, off, acc):
                 k = "C16/aesni/%s/%s/%s" % (FAMILY[mode], direction, what)
                 acc.violation(k, "AES-%d %s %s of %d bytes (buffer offset %d, segmentation %d): use_aesni=True -> %s, "
                               "use_aesni=False -> %s" % (klen * 8 if mode != "SIV" else klen * 4, mode, direction, L,
-                                                         off, inc, _fmt(obs[True]), _fmt(obs[False])),
+                                                         off, inc, _fmt(obs[True], obs[False]), _fmt(obs[False], obs[True])),
                               {"part": "aes", "mode": mode, "key": key, "data": data, "off": off},
                               script=_SCRIPT_AES % (key.hex(), data.hex(), mode))
                 fired.append(k)
@@ -228,8 +273,14 @@ def aes_case(mode, key, data, off, acc):
     return fired
 
 
-def _fmt(o):
-    return "%s %s%s" % (o[0], short(o[1], 40), "" if o[2] is None else " tag=" + short(o[2]))
+def _fmt(o, other=None):
+    d = ""
+    if other is not None and isinstance(o[1], bytes) and isinstance(other[1], bytes) and o[1] != other[1]:
+        i = 0
+        while i < min(len(o[1]), len(other[1])) and o[1][i] == other[1][i]:
+            i += 1
+        d = " [%d bytes, first difference at byte %d: ..%s..]" % (len(o[1]), i, o[1][i:i + 16].hex())
+    return "%s %s%s%s" % (o[0], short(o[1], 32), d, "" if o[2] is None else " tag=" + short(o[2]))
 
 
 _SCRIPT_AES = '''# stand-alone illustration (needs only pycryptodome); the driver compares every mode/direction/segmentation
@@ -249,19 +300,90 @@ def data_for(L):
     return asc(L, (L * 13 + 5) & 255)
 
 
-def aes_worker(shards):
-    """shard = (mode, klen, key_value_index, lengths, offsets)"""
+def _aes_cases(shards):
     from ..common import seeded
-    acc = Acc()
-    install_counters()
     for mode, klen, kv, lengths, offs in shards:
         key = key_alphabet(klen * 2 if mode == "SIV" else klen, seeded)[kv]
         for L in lengths:
             data = data_for(L)
             for off in offs:
-                aes_case(mode, key, data, off, acc)
+                yield mode, key, data, off
+
+
+def _aes_worker_inner(shards):
+    acc = Acc()
+    install_counters()
+    for mode, key, data, off in _aes_cases(shards):
+        aes_case(mode, key, data, off, acc)
+    mode, klen, kv, lengths, offs = shards[-1]
     acc.sample({"part": "aes-ni", "mode": mode, "key_bits": klen * 8, "key_value": kv,
                 "lengths": "%d..%d (%d values)" % (min(lengths), max(lengths), len(lengths)), "offsets": list(offs)})
+    return acc
+
+
+def _aes_probe(mode, key, data, off, ni):
+    """everything aes_case does, for ONE configuration (used to find which variant crashes)"""
+    install_counters()
+    aad = asc((len(data) * 7) % 41, 0x30) if FAMILY[mode] == "aead" else b""
+    out = []
+    for inc in (0, 1, 2):
+        e = _run(mode, key, ni, data, aad, off, "enc", inc, None)
+        ref = (e[1], e[2]) if e[0] == "ok" else None
+        out.append((e, _run(mode, key, ni, data, aad, off, "dec", inc, ref)))
+    return out
+
+
+def aes_crash_case(mode, key, data, off, acc):
+    """-> True when this case kills the interpreter under at least one configuration"""
+    died = {}
+    for ni in (True, False):
+        res, st = forked(_aes_probe, mode, key, data, off, ni)
+        if st < 0:
+            died[ni] = st
+        elif st > 0:
+            acc.error("harness failure while probing for a native crash: %s" % res)
+    if len(died) == 1:
+        ni, st = list(died.items())[0]
+        acc.violation("C16/aesni/%s/crash/use_aesni=%s" % (FAMILY[mode], ni),
+                      "AES-%d %s on %d bytes at buffer offset %d kills the interpreter (%s) with use_aesni=%s and "
+                      "completes with use_aesni=%s" % (len(key) * (4 if mode == "SIV" else 8), mode, len(data), off,
+                                                       _signame(st), ni, not ni),
+                      {"part": "aes-crash", "mode": mode, "key": key, "data": data, "off": off})
+    elif len(died) == 2:
+        acc.error("AES %s on %d bytes (offset %d) kills the interpreter under BOTH configurations (%s): no "
+                  "divergence between variants, nothing C16 can decide (see C17)" % (mode, len(data), off,
+                                                                                    _signame(died[True])))
+    return bool(died)
+
+
+def aes_worker(shards):
+    """shard = (mode, klen, key_value_index, lengths, offsets); runs in a forked child so that a native crash
+    is localised (case by case) and reported instead of hanging the pool"""
+    res, st = forked(_aes_worker_inner, shards)
+    if st == 0:
+        return res
+    acc = Acc()
+    if st > 0:
+        acc.error("AES shard failed in the harness:\n%s" % res)
+        return acc
+    for mode, key, data, off in _aes_cases(shards):
+        r2, st2 = forked(_aes_case_alone, mode, key, data, off)
+        if st2 == 0:
+            acc.merge(r2)
+            continue
+        if st2 > 0:
+            acc.error("AES case failed in the harness:\n%s" % r2)
+        else:
+            aes_crash_case(mode, key, data, off, acc)
+        acc.cap("AES shard %s abandoned after a native crash at length %d offset %d" % (mode, len(data), off))
+        break
+    return acc
+
+
+def _aes_case_alone(mode, key, data, off):
+    acc = Acc()
+    install_counters()
+    aes_case(mode, key, data, off, acc)
     return acc
 
 
@@ -304,13 +426,13 @@ def cfg_label(cfg):
     return "clmul=%s,aesni=%s" % ("T" if cfg[0] else "F", "T" if cfg[1] else "F")
 
 
-def gcm_case(key, nonce, aad, msg, off, cfgs, acc):
+def gcm_case(key, nonce, aad, msg, off, cfgs, acc, incs=(0, 1, 2)):
     """cfgs[0] is the reference configuration (use_clmul, use_aesni); every other one is compared with it."""
     fired = []
     cfgs = [tuple(bool(x) for x in c) for c in cfgs]
     variants = [0]
     for inc in (1, 2):
-        if len(pieces(len(aad), inc, False)) > 1 or len(pieces(len(msg), inc, False)) > 1:
+        if inc in incs and (len(pieces(len(aad), inc, False)) > 1 or len(pieces(len(msg), inc, False)) > 1):
             variants.append(inc)
     for inc in variants:
         ref = None
@@ -320,23 +442,35 @@ def gcm_case(key, nonce, aad, msg, off, cfgs, acc):
             base = _gcm_run(key, nonce, aad, msg, off, cfgs[0][0], cfgs[0][1], inc, direction, ref, acc)
             acc.seen("gcm_classes", (len(nonce), min(len(aad) // 16, 9), len(aad) % 16 != 0, min(len(msg) // 16, 9),
                                      len(msg) % 16 != 0, off, inc, direction, base[0]))
+            diverged = {}
             for cfg in cfgs[1:]:
                 o = _gcm_run(key, nonce, aad, msg, off, cfg[0], cfg[1], inc, direction, ref, acc)
                 acc.count("evaluations")
                 acc.count("gcm_pairs")
                 if o != base:
-                    what = "exception" if o[0] != base[0] else ("ciphertext" if o[1] != base[1] else "tag")
-                    if direction == "dec" and what != "exception":
-                        what = "plaintext"
-                    k = "C16/gcm/%s/%s/%s" % (cfg_label(cfg), direction, what)
-                    acc.violation(k, "AES-%d GCM %s nonce %d bytes, AAD %d bytes, message %d bytes (offset %d, "
-                                  "segmentation %d): %s -> %s ; %s -> %s"
-                                  % (len(key) * 8, direction, len(nonce), len(aad), len(msg), off, inc,
-                                     cfg_label(cfgs[0]), _fmt(base), cfg_label(cfg), _fmt(o)),
-                                  {"part": "gcm", "key": key, "nonce": nonce, "aad": aad, "msg": msg, "off": off,
-                                   "cfgs": [list(c) for c in cfgs]},
-                                  script=_SCRIPT_GCM % (key.hex(), nonce.hex(), aad.hex(), msg.hex()))
-                    fired.append(k)
+                    diverged[cfg] = o
+            for cfg, o in diverged.items():
+                sw = [n for n, x, y in (("use_clmul", cfg[0], cfgs[0][0]), ("use_aesni", cfg[1], cfgs[0][1])) if x != y]
+                if len(sw) == 2 and any(c != cfg for c in diverged):
+                    acc.count("gcm_divergence_explained_by_single_switch")
+                    continue                    # already reported for the single switch that causes it
+                if o[1] != base[1]:
+                    what = "ciphertext"          # (or the plaintext recovered from the same ciphertext)
+                elif o[0] != base[0]:
+                    # a failed verify() is the tag disagreeing; anything else is an exception-class divergence
+                    what = "tag" if (direction == "dec" and {o[0], base[0]} == {"ok", "raises:ValueError"}) \
+                        else "exception"
+                else:
+                    what = "tag"
+                k = "C16/gcm/%s/%s" % ("+".join(sw), what)
+                acc.violation(k, "AES-%d GCM %s nonce %d bytes, AAD %d bytes, message %d bytes (offset %d, "
+                              "segmentation %d): %s -> %s ; %s -> %s"
+                              % (len(key) * 8, direction, len(nonce), len(aad), len(msg), off, inc,
+                                 cfg_label(cfgs[0]), _fmt(base, o), cfg_label(cfg), _fmt(o, base)),
+                              {"part": "gcm", "key": key, "nonce": nonce, "aad": aad, "msg": msg, "off": off,
+                               "cfgs": [list(c) for c in cfgs], "incs": list(incs)},
+                              script=_SCRIPT_GCM % (key.hex(), nonce.hex(), aad.hex(), msg.hex()))
+                fired.append(k)
             if direction == "enc":
                 ref = (base[1], base[2]) if base[0] == "ok" else None
     return fired
@@ -363,17 +497,11 @@ def gcm_keys(seeded_fn):
            [asc(24, 7), asc(32, 9)]
 
 
-def gcm_worker(shards):
-    """shard = (kind, key_index, nonce_len, aad_lengths, msg_lengths, offsets, cfgs)"""
+def _gcm_cases(shards):
     from ..common import seeded
-    from Crypto.Cipher import AES
-    acc = Acc()
-    install_counters()
     keys = gcm_keys(seeded)
     for kind, ki, nl, alens, mlens, offs, cfgs in shards:
         key = keys[ki]
-        h = AES.new(key, AES.MODE_ECB).encrypt(bytes(16))
-        acc.seen("gcm_h_bits", (h[0] >> 7, h[15] & 1))
         nonce = asc(nl, 0xC0)
         for a in alens:
             aad = asc(a, 0x11 + a)
@@ -382,7 +510,87 @@ def gcm_worker(shards):
                     continue
                 msg = data_for(m)
                 for off in offs:
-                    gcm_case(key, nonce, aad, msg, off, cfgs, acc)
-    acc.sample({"part": "gcm-clmul", "key_index": ki, "nonce_len": nl, "aad_lengths": len(alens),
+                    yield key, nonce, aad, msg, off, cfgs, ((0,) if kind == "full1" else (0, 1, 2))
+
+
+def _gcm_worker_inner(shards):
+    from Crypto.Cipher import AES
+    acc = Acc()
+    install_counters()
+    seen_keys = set()
+    for key, nonce, aad, msg, off, cfgs, incs in _gcm_cases(shards):
+        if key not in seen_keys:
+            seen_keys.add(key)
+            h = AES.new(key, AES.MODE_ECB).encrypt(bytes(16))
+            acc.seen("gcm_h_bits", (h[0] >> 7, h[15] & 1))
+        gcm_case(key, nonce, aad, msg, off, cfgs, acc, incs=incs)
+    kind, ki, nl, alens, mlens, offs, cfgs = shards[-1]
+    acc.sample({"part": "gcm-clmul", "grid": kind, "key_index": ki, "nonce_len": nl, "aad_lengths": len(alens),
                 "msg_lengths": len(mlens), "offsets": list(offs), "configs": [cfg_label(c) for c in cfgs]})
+    return acc
+
+
+def _gcm_probe(key, nonce, aad, msg, off, cfg, incs):
+    acc = Acc()
+    out = []
+    for inc in incs:
+        e = _gcm_run(key, nonce, aad, msg, off, cfg[0], cfg[1], inc, "enc", None, acc)
+        out.append(e)
+        if e[0] == "ok":
+            out.append(_gcm_run(key, nonce, aad, msg, off, cfg[0], cfg[1], inc, "dec", (e[1], e[2]), acc))
+    return out
+
+
+def gcm_crash_case(key, nonce, aad, msg, off, cfgs, incs, acc):
+    died = {}
+    cfgs = [tuple(bool(x) for x in c) for c in cfgs]
+    for cfg in cfgs:
+        res, st = forked(_gcm_probe, key, nonce, aad, msg, off, cfg, tuple(incs))
+        if st < 0:
+            died[cfg] = st
+        elif st > 0:
+            acc.error("harness failure while probing for a native crash: %s" % res)
+    if died and len(died) < len(cfgs):
+        acc.violation("C16/gcm/crash/%s" % "+".join(cfg_label(c) for c in cfgs if c in died),
+                      "AES-%d GCM nonce %d bytes, AAD %d bytes, message %d bytes at offset %d kills the interpreter "
+                      "(%s) under %s and completes under the other configurations"
+                      % (len(key) * 8, len(nonce), len(aad), len(msg), off, _signame(list(died.values())[0]),
+                         [cfg_label(c) for c in died]),
+                      {"part": "gcm-crash", "key": key, "nonce": nonce, "aad": aad, "msg": msg, "off": off,
+                       "cfgs": [list(c) for c in cfgs], "incs": list(incs)})
+    elif died:
+        acc.error("GCM case kills the interpreter under ALL configurations: nothing C16 can decide (see C17)")
+    return bool(died)
+
+
+def _gcm_case_alone(key, nonce, aad, msg, off, cfgs, incs):
+    acc = Acc()
+    install_counters()
+    gcm_case(key, nonce, aad, msg, off, cfgs, acc, incs=incs)
+    return acc
+
+
+def gcm_worker(shards):
+    """shard = (kind, key_index, nonce_len, aad_lengths, msg_lengths, offsets, cfgs)
+    kind: 'full' = whole cross product, all segmentations; 'full1' = whole cross product, one call only;
+    'band' = pairs with a or m in BAND, all segmentations.  Forked like aes_worker."""
+    res, st = forked(_gcm_worker_inner, shards)
+    if st == 0:
+        return res
+    acc = Acc()
+    if st > 0:
+        acc.error("GCM shard failed in the harness:\n%s" % res)
+        return acc
+    for key, nonce, aad, msg, off, cfgs, incs in _gcm_cases(shards):
+        r2, st2 = forked(_gcm_case_alone, key, nonce, aad, msg, off, cfgs, incs)
+        if st2 == 0:
+            acc.merge(r2)
+            continue
+        if st2 > 0:
+            acc.error("GCM case failed in the harness:\n%s" % r2)
+        else:
+            gcm_crash_case(key, nonce, aad, msg, off, cfgs, incs, acc)
+        acc.cap("GCM shard abandoned after a native crash (nonce %d, AAD %d, message %d, offset %d)"
+                % (len(nonce), len(aad), len(msg), off))
+        break
     return acc
